@@ -234,6 +234,16 @@ def history_harness(style, proto, k, chain, subclassing="none", listenable=True)
                 setattr(otherd, tn, val)
                 ex.check(calls == [] and obs_calls == [], "a change on an object that is not the current delegate does not notify")
                 trace.append("other=%d" % val)
+            if step == 0:
+                bt = top.base_trait("x")
+                ex.check(bt.default_value()[1] == T.class_traits()[tn].default_value()[1] and bt.handler is T.class_traits()[tn].handler,
+                         "base_trait() of the deferring attribute is the definition of the target attribute at the end of the chain")
+                try:
+                    top.validate_trait("x", 1000)
+                    vrej = False
+                except TraitError:
+                    vrej = True
+                ex.check(vrej and top.validate_trait("x", 50) == 50, "validate_trait() of the deferring attribute validates as the target's definition does")
             expect = local_val if (proto and local) else getattr(cur, tn)
             ex.check(top.x == expect, "the deferring attribute reads the current value of the target on the current delegate "
                                       "(or its own value once assigned locally)")
@@ -493,6 +503,47 @@ def c_name_harness(ex):
     return {"style": style}
 
 
+def identity_target_harness(ex):
+    """the target attribute compares by IDENTITY (or not at all): every new object is a change, equal or not - and the deferring
+    attribute's handlers (on_trait_change and observe) hear exactly the changes the target's own handlers hear"""
+    errors = []
+    push_exception_handler(lambda *a: errors.append(a), reraise_exceptions=False)
+    try:
+        from traits.api import Any
+        mode = [ComparisonMode.identity, ComparisonMode.none, ComparisonMode.equality][ex.choice("target_comparison_mode", 3)]
+        proto = ex.flag("prototyped")
+
+        class T(HasTraits):
+            x = Any(1, comparison_mode=mode)
+
+        class D(HasTraits):
+            t = Instance(T, ())
+            x = (PrototypedFrom if proto else DelegatesTo)("t")
+
+        d = D()
+        heard = {"t.otc": 0, "t.obs": 0, "d.otc": 0, "d.obs": 0}
+        d.t.on_trait_change(lambda: heard.__setitem__("t.otc", heard["t.otc"] + 1), "x")
+        d.t.observe(lambda e: heard.__setitem__("t.obs", heard["t.obs"] + 1), "x")
+        d.on_trait_change(lambda: heard.__setitem__("d.otc", heard["d.otc"] + 1), "x")
+        d.observe(lambda e: heard.__setitem__("d.obs", heard["d.obs"] + 1), "x")
+        values = [1.0, 1, True, 1.0, 2, [2], [2]]        # equal-but-distinct neighbours, then really different ones
+        for step in range(3):
+            v = values[ex.choice("value%d" % step, len(values))]
+            if isinstance(v, list):
+                v = list(v)
+            for k_ in heard:
+                heard[k_] = 0
+            d.t.x = v
+            ex.check(heard["d.otc"] == heard["t.otc"] and heard["d.obs"] == heard["t.obs"],
+                     "while linked, the deferring attribute's handlers hear exactly the changes the target's own handlers hear "
+                     "(whatever the target's comparison mode)")
+            ex.check(d.x is d.t.x or d.x == d.t.x, "the deferring attribute reads the current value of the target")
+        ex.check(errors == [], "no handler raised")
+        return {"mode": mode.name}
+    finally:
+        pop_exception_handler()
+
+
 def lazy_chain_harness(ex):
     """chain of deferral whose intermediate delegates are *defaults that were never materialised* (not in __dict__)"""
     class T(HasTraits):
@@ -570,6 +621,9 @@ def obligations(tier, build):
            Obligation("c-name-functions", c_name_harness, kind="csym",
                       bounds={"deferring name, prefix": "any strings of length <= 8 (z3 String)", "prefix style": "0-3", "class": "with / without __prefix__"},
                       leverage="both strings (z3 String) through the interpreted _trait_delegate / delegate_attr_name_* functions", query_timeout_ms=60000),
+           Obligation("identity-target", identity_target_harness, bounds={"target comparison modes": "identity / none / equality",
+                                                                          "values": "1.0, 1, True (equal, distinct), 2, equal lists", "history length": 3},
+                      leverage="choice feasibility only"),
            Obligation("lazy-chain", lazy_chain_harness, leverage="choice feasibility only"),
            Obligation("cycle", cycle_harness, leverage="none",
                       crash_is_violation="access through a delegation cycle terminates with a Python exception, not a crash")]
